@@ -1,1 +1,57 @@
-From TF Require Import Ty.
+(* C16 (type-text part) — rendering a type to text and parsing it back returns the same type.
+   Only statements, `exact` proofs, Print Assumptions and non-vacuity examples live here.
+
+   Model: Ty.v — `ty_display` transcribes `impl Display for Type`; `ty_parse_res` transcribes
+   `Type::parse` = async_graphql_parser::types::Type::new (strip one trailing '!', then "[" inner "]"
+   recursively, else ANY remainder is the name) followed by `Type::from_type`, which PANICS on more
+   than 30 list levels (Ok None = Err(TypeParseError), Panic = that panic; `ty_parse` maps both to
+   None).  `name_ok s` = s does not end in '!' and does not start with '['  (the empty name, names
+   with spaces, inner brackets etc. all round-trip). *)
+From TF Require Import Values Ty TyProofs.
+Local Open Scope string_scope.
+
+Theorem C16_type_text_roundtrip_res : forall t, wf_ty t = true -> name_ok (tbase t) = true ->
+  ty_parse_res (ty_display t) = Ok (Some t).
+Proof. exact parse_display_roundtrip. Qed.
+Print Assumptions C16_type_text_roundtrip_res.
+
+Theorem C16_type_text_roundtrip : forall t, wf_ty t = true -> name_ok (tbase t) = true ->
+  ty_parse (ty_display t) = Some t.
+Proof. exact parse_display_roundtrip_opt. Qed.
+Print Assumptions C16_type_text_roundtrip.
+
+(* the condition on names is necessary: for a name violating it already the nullable named type
+   does not survive *)
+Theorem C16_name_ok_necessary : forall s,
+  ty_parse_res (ty_display (ty_named s true)) = Ok (Some (ty_named s true)) -> name_ok s = true.
+Proof. exact name_ok_necessary. Qed.
+Print Assumptions C16_name_ok_necessary.
+
+(* the other direction, for EVERY string (no whitespace or name restrictions: the parser keeps
+   every character it does not consume as syntax inside the name): whatever parses is well formed
+   and prints back verbatim *)
+Theorem C16_parse_display_stable : forall s t, ty_parse_res s = Ok (Some t) ->
+  wf_ty t = true /\ ty_display t = s.
+Proof. exact parse_sound. Qed.
+Print Assumptions C16_parse_display_stable.
+
+(* non-vacuity *)
+Example C16_type_text_nonvacuous :
+  ty_parse_res "[[Int!]]!" = Ok (Some (mkTy "Int" 27)) /\
+  wf_ty (mkTy "Int" 27) = true /\ name_ok "Int" = true /\
+  ty_display (mkTy "Int" 27) = "[[Int!]]!" /\
+  ty_parse_res "[ Int ]" = Ok (Some (mkTy " Int " 2)) /\
+  ty_parse_res "" = Ok (Some (mkTy "" 0)) /\
+  ty_parse_res "[Int" = Ok None /\ ty_parse_res "[Int]]!" = Ok (Some (mkTy "Int]" 3)) /\
+  name_ok "Int!" = false /\ ty_parse_res (ty_display (ty_named "Int!" true)) = Ok (Some (ty_named "Int" false)) /\
+  name_ok "[x]" = false /\ ty_parse_res (ty_display (ty_named "[x]" true)) = Ok (Some (mkTy "x" 2)).
+Proof. vm_compute. repeat split. Qed.
+Print Assumptions C16_type_text_nonvacuous.
+
+(* 30 list levels round-trip; 31 levels of text make Type::parse panic (from_type) *)
+Example C16_type_text_max_depth :
+  (exists t, ty_parse_res (deep_text 30) = Ok (Some t) /\ wf_ty t = true /\ ty_depth t = 30%nat /\
+             ty_display t = deep_text 30) /\
+  ty_parse_res (deep_text 31) = Panic site_from_type /\ ty_parse (deep_text 31) = None.
+Proof. vm_compute. split; [eexists; repeat split | split; reflexivity]. Qed.
+Print Assumptions C16_type_text_max_depth.
